@@ -18,7 +18,8 @@ open Logrange.Rd Logrange.Generated.C03
 
 /-- the three repairs the offset model is written for are still in the code (regenerated every run) -/
 theorem code_shape_facts :
-    offsetPositiveBranchSettles = true ∧ fiteratorSetBackwardDropsCache = true ∧ backwardEofKeepsPos = true := by
+    offsetPositiveBranchSettles = true ∧ fiteratorSetBackwardDropsCache = true ∧ backwardEofKeepsPos = true ∧
+    newCursorSortsSources = true := by
   decide
 
 /-- offset 0 leaves the cursor alone -/
@@ -123,26 +124,100 @@ theorem cex_exported_position_skips_event :
     let q : Qry := { text := 1 }
     let j : Journal := [⟨10, [r 0, r 1], 0, maxU32⟩, ⟨20, [r 2, r 3], 0, maxU32⟩]
     let s0 : Server := { store := [(0, j)] }
-    let (s1, p1) := query queryMaxLimit s0 [] { query := some q, limit := 3 }
-    let (s2, p2) := query queryMaxLimit s1 [] { query := some q, pos := p1.next.pos, offset := -2, limit := 0 }
-    let (_, p3) := query queryMaxLimit s2 [] { query := some q, pos := p2.next.pos, limit := 1 }
+    let (s1, p1) := query queryMaxLimit s0 { query := some q, limit := 3 }
+    let (s2, p2) := query queryMaxLimit s1 { query := some q, pos := p1.next.pos, offset := -2, limit := 0 }
+    let (_, p3) := query queryMaxLimit s2 { query := some q, pos := p2.next.pos, limit := 1 }
     p1.events.map (·.lbl) = [0, 1, 2] ∧ p2.next.pos = .map [(0, ⟨10, 2⟩)] ∧ p3.events.map (·.lbl) = [2] := by
   decide +kernel
 
-/-! ## open finding #23: tie order depends on the leaf order of the incarnation -/
+/-! ## tie order between partitions (finding #23, repaired by f086c95)
 
-/-- Read one event under leaf order [0,1] and take the position vector; a cursor built from that vector
-with leaf order [1,0] (what Go's map iteration may produce next time) does not come back to the same next
-event after +1 and -1, the one with the same leaf order does. -/
-theorem cex_tie_order_between_incarnations :
+`newCursor` now sorts its sources by tag line before it builds the mixer tree, so the leaf order — the
+priority that breaks timestamp ties, forward to the left and backward to the right — is a function of the set of
+sources and no longer of Go's map iteration order. -/
+
+theorem insertSrc_perm (x : Nat × Journal) (l : List (Nat × Journal)) : (insertSrc x l).Perm (x :: l) := by
+  induction l with
+  | nil => exact List.Perm.refl _
+  | cons y ys ih =>
+    simp only [insertSrc]; split
+    · exact List.Perm.refl _
+    · exact ((List.Perm.cons y ih).trans (List.Perm.swap x y ys))
+
+theorem sortSrcs_perm (l : List (Nat × Journal)) : (sortSrcs l).Perm l := by
+  induction l with
+  | nil => exact List.Perm.refl _
+  | cons x xs ih => exact (insertSrc_perm x _).trans (List.Perm.cons x ih)
+
+theorem insertSrc_sorted (x : Nat × Journal) (l : List (Nat × Journal))
+    (h : l.Pairwise (fun a b => a.1 ≤ b.1)) : (insertSrc x l).Pairwise (fun a b => a.1 ≤ b.1) := by
+  induction l with
+  | nil => simp [insertSrc]
+  | cons y ys ih =>
+    simp only [insertSrc]; split
+    · rename_i hxy
+      refine List.Pairwise.cons ?_ h
+      intro b hb
+      rcases List.mem_cons.mp hb with rfl | hb'
+      · exact hxy
+      · exact Nat.le_trans hxy ((List.pairwise_cons.mp h).1 b hb')
+    · rename_i hxy
+      obtain ⟨h1, h2⟩ := List.pairwise_cons.mp h
+      refine List.Pairwise.cons ?_ (ih h2)
+      intro b hb
+      rcases List.mem_cons.mp ((insertSrc_perm x ys).subset hb) with rfl | hb'
+      · omega
+      · exact h1 b hb'
+
+theorem sortSrcs_sorted (l : List (Nat × Journal)) : (sortSrcs l).Pairwise (fun a b => a.1 ≤ b.1) := by
+  induction l with
+  | nil => simp [sortSrcs]
+  | cons x xs ih => exact insertSrc_sorted x _ ih
+
+theorem name_inj_of_nodup : ∀ (l : List (Nat × Journal)), (l.map (·.1)).Nodup →
+    ∀ a b, a ∈ l → b ∈ l → a.1 = b.1 → a = b := by
+  intro l
+  induction l with
+  | nil => intro _ a b ha; simp at ha
+  | cons x xs ih =>
+    intro hn a b ha hb hab
+    simp only [List.map_cons, List.nodup_cons, List.mem_map, not_exists, not_and] at hn
+    rcases List.mem_cons.mp ha with rfl | ha' <;> rcases List.mem_cons.mp hb with rfl | hb'
+    · rfl
+    · exact absurd hab.symm (hn.1 b hb')
+    · exact absurd hab (hn.1 a ha')
+    · exact ih hn.2 a b ha' hb' hab
+
+/-- **cursor incarnations over the same partitions have the same leaf order**: whatever order the sources come
+in (Go's map iteration), the sorted list is the same — for any number of partitions with distinct names. -/
+theorem leaf_order_independent_of_map_order (l1 l2 : List (Nat × Journal)) (hp : l1.Perm l2)
+    (hn : (l1.map (·.1)).Nodup) : sortSrcs l1 = sortSrcs l2 := by
+  have hperm : (sortSrcs l1).Perm (sortSrcs l2) := ((sortSrcs_perm l1).trans hp).trans (sortSrcs_perm l2).symm
+  refine List.Perm.eq_of_pairwise (le := fun a b => a.1 ≤ b.1) ?_ (sortSrcs_sorted l1) (sortSrcs_sorted l2) hperm
+  intro a b ha hb h1 h2
+  have ha' : a ∈ l1 := (sortSrcs_perm l1).subset ha
+  have hb' : b ∈ l1 := hp.symm.subset ((sortSrcs_perm l2).subset hb)
+  have hname : a.1 = b.1 := Nat.le_antisymm h1 h2
+  exact name_inj_of_nodup l1 hn a b ha' hb' hname
+
+/-- the cursor a request builds does not depend on the order of the store's partition list -/
+theorem new_cursor_independent_of_map_order (s1 s2 : List (Nat × Journal)) (q : Qry) (p : PosText)
+    (hp : (resolve s1 q).Perm (resolve s2 q)) (hn : ((resolve s1 q).map (·.1)).Nodup) :
+    newCur s1 q p = newCur s2 q p := by
+  unfold newCur; rw [leaf_order_independent_of_map_order _ _ hp hn]
+
+/-- the old witness of #23, now passing: two partitions whose records share a timestamp; read one event, take the
+position; in a NEW incarnation (the store lists the partitions the other way round) `+1` then `−1` leads back
+to the same next event. -/
+theorem tie_order_same_across_incarnations :
+    let q : Qry := { text := 1 }
     let a : Journal := [⟨10, [r 0 true 5, r 1 true 5], 0, maxU32⟩]
     let b : Journal := [⟨10, [r 100000 true 5, r 100001 true 5], 0, maxU32⟩]
-    let mk : List Nat → Cur := fun order =>
-      mkCur (order.map (fun n => { name := n, jrnl := if n = 0 then a else b })) false none none false
-    let (c1, _) := readLoop 1 (mk [0, 1]) []
-    let (_, vec) := commit c1
-    let nextAfter : List Nat → Option Nat := fun order =>
-      ((curGet (offset (offset (applyStatePos (mk order) vec) 1) (-1))).2).map (·.lbl)
-    nextAfter [0, 1] = some 1 ∧ nextAfter [1, 0] = some 100000 := by decide +kernel
+    let nextAfter : List (Nat × Journal) → List Nat := fun store =>
+      let (s1, p1) := query queryMaxLimit { store := [(0, a), (1, b)] } { query := some q, limit := 1 }
+      let (s2, p2) := query queryMaxLimit { s1 with store := store } { query := some q, pos := p1.next.pos, offset := 1, limit := 0 }
+      let (_, p3) := query queryMaxLimit s2 { query := some q, pos := p2.next.pos, offset := -1, limit := 1 }
+      p3.events.map (·.lbl)
+    nextAfter [(0, a), (1, b)] = [1] ∧ nextAfter [(1, b), (0, a)] = [1] := by decide +kernel
 
 end Logrange.Props.C16
